@@ -239,3 +239,13 @@ end Sig.Search
   let cases := convCases Kind.u8 Kind.f32 0 1 ++ convCases Kind.u16 Kind.f64 0 0
   let (n, w) := firstBad cases (fun (s, d) => convBad .unsignedAsFloat (fun h d s => Gen.UnsignedAsFloat_fn s.kind.intTy d.kind.fmt h d s) (s, d)) (fun (s, d) => s!"src={repr s} dst={repr d}")
   report "SignalGen.Eq.ConvFn" "UnsignedAsFloat_fn" n w
+
+-- ------------------------------------------------------------------------------------------- SignalGen.Eq.ConvFnF2I
+#eval do
+  let cases := convCases Kind.f32 Kind.i8 1 0 ++ convCases Kind.f32 Kind.i64 1 0
+  let (n, w) := firstBad cases (fun (s, d) => convBad .floatAsSigned (fun h d s => Gen.FloatAsSigned_fn s.kind.fmt d.kind.intTy h d s) (s, d)) (fun (s, d) => s!"src={repr s} dst={repr d}")
+  report "SignalGen.Eq.ConvFnF2I" "FloatAsSigned_fn" n w
+#eval do
+  let cases := convCases Kind.f32 Kind.u8 1 0 ++ convCases Kind.f32 Kind.u32 1 0
+  let (n, w) := firstBad cases (fun (s, d) => convBad .floatAsUnsigned (fun h d s => Gen.FloatAsUnsigned_fn s.kind.fmt d.kind.intTy h d s) (s, d)) (fun (s, d) => s!"src={repr s} dst={repr d}")
+  report "SignalGen.Eq.ConvFnF2I" "FloatAsUnsigned_fn" n w
